@@ -559,7 +559,7 @@ C18 = Spec('C18',
     checker_name='ApiSched.chk_C18_replace / chk_C18_cached', model_name='Sem/Conc.v, Sem/ConcLock.v')
 
 C12.xcheck = xcheck.codec_crosscheck
-for _p in (C01, C02, C03, C11):
+for _p in (C01, C02, C03, C04, C07, C08, C09, C11):
     _p.xcheck = xcheck.tree_crosscheck
 C17.xcheck = None
 
